@@ -1,7 +1,11 @@
 """Expose validators to use in the library."""
 import logging
 
-from awesomeversion import AwesomeVersion, AwesomeVersionException
+from awesomeversion import (
+    AwesomeVersion,
+    AwesomeVersionException,
+    AwesomeVersionStrategy,
+)
 import voluptuous as vol
 
 _LOGGER = logging.getLogger(__name__)
@@ -13,7 +17,11 @@ def is_version(value):
     """Validate that value is a valid version string."""
     try:
         value = str(value)
-        if AwesomeVersion("1.4") > AwesomeVersion(value):
+        version = AwesomeVersion(value)
+        # "latest", "stable", "beta" and "dev" are container tags, not versions.
+        if version.strategy == AwesomeVersionStrategy.SPECIALCONTAINER:
+            raise ValueError()
+        if AwesomeVersion("1.4") > version:
             raise ValueError()
         return value
     except (AwesomeVersionException, TypeError, ValueError) as exc:
